@@ -43,7 +43,162 @@ fn gen_cases(rng: &mut Rng, tier: Tier) -> Vec<Value> {
             }
             case
         })
+        .collect::<Vec<_>>()
+        .into_iter()
+        .chain((0..(if tier == Tier::Thorough { 400 } else { 40 })).map(|_| gen_swap_star(rng)).collect::<Vec<_>>())
         .collect()
+}
+
+// ---------------------------------------------------------------------------------------------------------------------
+// the SWAP* local search operator: its parallel evaluation of all (outer job, inner job) pairs of two tours, reduced to the
+// lexicographically smallest change of the fitness vector, must not depend on the pool it runs on either
+
+/// no randomness: the operator takes the first route pair and scans all legs
+struct FixedRandom;
+
+impl vrp_core::prelude::Random for FixedRandom {
+    fn uniform_int(&self, min: i32, _: i32) -> i32 {
+        min
+    }
+    fn uniform_real(&self, min: f64, _: f64) -> f64 {
+        min
+    }
+    fn is_head_not_tails(&self) -> bool {
+        false
+    }
+    fn is_hit(&self, probability: f64) -> bool {
+        probability >= 1.
+    }
+    fn weighted(&self, _: &[usize]) -> usize {
+        0
+    }
+    fn get_rng(&self) -> vrp_core::rosomaxa::utils::RandomGen {
+        vrp_core::rosomaxa::utils::RandomGen::new_repeatable()
+    }
+}
+
+/// two tours over random coordinates; a value objective ranked above the cost whose per-job values (for the second vehicle
+/// only) are small multiples of a step between 1e-9 and 1e-6: candidate exchanges that agree to many digits in the higher
+/// layer and differ clearly in the cost - an exact lexicographic minimum exists and is unique
+fn gen_swap_star(rng: &mut Rng) -> Value {
+    let per_route = rng.usize(4, 8);
+    let pts: Vec<Value> = (0..1 + 2 * per_route).map(|_| json!([rng.range(0, 1000), rng.range(0, 1000)])).collect();
+    let step_exp = rng.range(6, 9);
+    let mut ks: Vec<i64> = (0..per_route as i64).collect();
+    rng.shuffle(&mut ks);
+    json!({"k": "swapstar", "per_route": per_route, "pts": pts, "step_exp": step_exp, "ks": ks, "value_above_cost": rng.chance(5, 6)})
+}
+
+fn exec_swap_star(case: &Value) -> Value {
+    use std::sync::Arc;
+    use vrp_core::construction::features::{JobReadValueFn, create_maximize_total_job_value_feature};
+    use vrp_core::models::problem::JobIdDimension;
+    use vrp_core::models::solution::{Activity, Place};
+    use vrp_core::prelude::*;
+    use vrp_core::rosomaxa::evolution::TelemetryMode;
+    use vrp_core::solver::search::{ExchangeSwapStar, LocalOperator};
+    use vrp_core::solver::{GreedyPopulation, RefinementContext};
+    use vrp_core::utils::Parallelism;
+
+    let per_route = case["per_route"].as_u64().unwrap() as usize;
+    let pts: Vec<(f64, f64)> = case["pts"].as_array().unwrap().iter().map(|p| (p[0].as_f64().unwrap() / 10., p[1].as_f64().unwrap() / 10.)).collect();
+    let step = 10f64.powi(-(case["step_exp"].as_i64().unwrap() as i32)) * 0.3;
+    let ks: Vec<i64> = case["ks"].as_array().unwrap().iter().map(|k| k.as_i64().unwrap()).collect();
+    let matrix: Vec<f64> = pts.iter().flat_map(|a| pts.iter().map(move |b| ((a.0 - b.0).powi(2) + (a.1 - b.1).powi(2)).sqrt())).collect();
+    let transport: Arc<dyn TransportCost> = Arc::new(SimpleTransportCost::new(matrix.clone(), matrix).unwrap());
+    let jobs: Vec<Job> = (1..=2 * per_route)
+        .map(|idx| {
+            SingleBuilder::default()
+                .id(format!("c{idx}").as_str())
+                .location(idx)
+                .unwrap()
+                .build_as_job()
+                .unwrap()
+        })
+        .collect();
+    let vehicles: Vec<Vehicle> = ["v0", "v1"]
+        .into_iter()
+        .map(|id| {
+            VehicleBuilder::default()
+                .id(id)
+                .add_detail(VehicleDetailBuilder::default().set_start_location(0).set_end_location(0).build().unwrap())
+                .build()
+                .unwrap()
+        })
+        .collect();
+    let bonus: Arc<std::collections::HashMap<String, f64>> =
+        Arc::new((1..=2 * per_route).map(|idx| (format!("c{idx}"), ks[(idx - 1) % per_route] as f64 * step)).collect());
+    let minimize_unassigned = MinimizeUnassignedBuilder::new("min-unassigned").build().unwrap();
+    let maximize_value = create_maximize_total_job_value_feature(
+        "max-value",
+        JobReadValueFn::Right(Arc::new(move |actor, job| {
+            if actor.vehicle.dimens.get_vehicle_id().is_some_and(|id| id == "v1") {
+                job.dimens().get_job_id().and_then(|id| bonus.get(id)).copied().unwrap_or(0.)
+            } else {
+                0.
+            }
+        })),
+        Arc::new(|job, _| job),
+        ViolationCode::unknown(),
+    )
+    .unwrap();
+    let minimize_cost = TransportFeatureBuilder::new("min-cost").set_transport_cost(transport.clone()).set_time_constrained(false).build_minimize_cost().unwrap();
+    let features = if case["value_above_cost"].as_bool().unwrap_or(true) {
+        vec![minimize_unassigned, maximize_value, minimize_cost]
+    } else {
+        vec![minimize_unassigned, minimize_cost, maximize_value]
+    };
+    let goal = GoalContextBuilder::with_features(&features).unwrap().build().unwrap();
+    let problem = Arc::new(
+        ProblemBuilder::default().add_jobs(jobs.into_iter()).add_vehicles(vehicles.into_iter()).with_goal(goal).with_transport_cost(transport).build().unwrap(),
+    );
+    let random: Arc<dyn Random> = Arc::new(FixedRandom);
+    let mut outcomes: Vec<Value> = vec![];
+    for (pools, threads) in [(1usize, 1usize), (1, 2), (1, 3), (1, 4), (2, 4), (1, 8), (1, 16)] {
+        for _ in 0..2 {
+            let parallelism = Parallelism::new(pools, threads);
+            let environment = Arc::new(Environment::new(random.clone(), None, parallelism.clone(), Arc::new(|_: &str| {}), false));
+            let mut ctx = InsertionContext::new_empty(problem.clone(), environment.clone());
+            for (vehicle_id, range) in [("v0", 1..=per_route), ("v1", per_route + 1..=2 * per_route)] {
+                let actor = problem.fleet.actors.iter().find(|a| a.vehicle.dimens.get_vehicle_id().is_some_and(|id| id == vehicle_id)).cloned().unwrap();
+                let mut route_ctx = ctx.solution.registry.get_route(&actor).unwrap();
+                for idx in range {
+                    let job = problem.jobs.all().iter().find(|job| job.dimens().get_job_id().unwrap() == &format!("c{idx}")).cloned().unwrap();
+                    let single = job.as_single().cloned().unwrap();
+                    let place = single.places.first().unwrap();
+                    let mut activity = Activity::new_with_job(single.clone());
+                    activity.place = Place { idx: 0, location: place.location.unwrap(), duration: place.duration, time: place.times.first().unwrap().to_time_window(0.) };
+                    route_ctx.route_mut().tour.insert_last(activity);
+                }
+                ctx.solution.routes.push(route_ctx);
+            }
+            ctx.restore();
+            let refinement_ctx = RefinementContext::new(problem.clone(), Box::new(GreedyPopulation::new(problem.goal.clone(), 1, None)), TelemetryMode::None, environment.clone());
+            let operator = ExchangeSwapStar::new(random.clone(), 200);
+            let result = parallelism.thread_pool_execute(pools - 1, || operator.explore(&refinement_ctx, &ctx));
+            let sig = match result {
+                None => json!(null),
+                Some(r) => {
+                    let mut tours: Vec<(String, Vec<String>)> = r
+                        .solution
+                        .routes
+                        .iter()
+                        .map(|rc| {
+                            (
+                                rc.route().actor.vehicle.dimens.get_vehicle_id().unwrap().clone(),
+                                rc.route().tour.all_activities().filter_map(|a| a.retrieve_job()).map(|j| j.dimens().get_job_id().unwrap().clone()).collect(),
+                            )
+                        })
+                        .collect();
+                    tours.sort();
+                    json!({"tours": tours, "fitness": problem.goal.fitness(&r).map(|f| f.to_bits()).collect::<Vec<u64>>()})
+                }
+            };
+            outcomes.push(sig);
+        }
+    }
+    let distinct = outcomes.iter().map(|o| o.to_string()).collect::<std::collections::BTreeSet<_>>().len();
+    json!({"outcomes": outcomes, "distinct": distinct})
 }
 
 fn cost_json(res: &InsertionResult) -> Value {
@@ -62,6 +217,9 @@ fn cost_json(res: &InsertionResult) -> Value {
 }
 
 fn exec(case: &Value) -> Value {
+    if case["k"] == "swapstar" {
+        return exec_swap_star(case);
+    }
     let mut mc = build_multi_case(case, quiet_env());
     if let Some(times) = case["fp"].as_u64() {
         use vrp_core::models::common::{Footprint, Shadow};
